@@ -1,9 +1,23 @@
 PROP = "C09"
-LEVEL = "exploration"
-CONTRACT_MODULES = ["menger"]
-DEDUCTIVE = []
-EXPLANATION = "bounded run-time layer only so far"
-LEVEL_TEXT = ("Bounded exploration: multi-knee detection of all five detectors compared with the statement's recursive definition executed on the "
-              "real single-knee detector (curve families, boundary thresholds, a 2600-point curve for deep split trees). Not a proof.")
-LEVEL_NOTE = "bounded; the single-knee detectors are used as primitives by the oracle"
-TECHNIQUE = "bounded run-time contract checking (stand-in; deductive contract for multi_knee pending)"
+LEVEL = "proof"
+CONTRACT_MODULES = ["detectors", "menger"]
+DEDUCTIVE = [
+    ("detectors", "kneeliverse.curvature.knee"),
+    ("detectors", "kneeliverse.menger.knee"),
+    ("detectors", "kneeliverse.dfdt.get_knee_gradient"),
+    ("detectors", "kneeliverse.dfdt.knee"),
+    ("detectors", "kneeliverse.lmethod.get_knee"),
+    ("detectors", "kneeliverse.lmethod.knee#none"),
+    ("detectors", "kneeliverse.lmethod.knee#original"),
+]
+EXPLANATION = ("Each detector's result is proved to be an interior index optimising its criterion: curvature maximises |g2|/(1+g1^2)^1.5 over "
+               "interior points (first maximum; g1,g2 = uts.gradient cfd/csd, uninterpreted); DFDT's gradient step minimises |g - isodata(g)| "
+               "over the interior and its refinement loop terminates (the previous knee strictly increases); Menger maximises the curvature of "
+               "consecutive triples (each value characterised by the C17 contract of menger_curvature) and returns 0 only when all triples are "
+               "collinear; the L-method's single pass returns the first strict minimiser of the two-line error over 2..n-3 and the refinement "
+               "terminates for options none and original. The identification of g1, g2, T with f', f'' and the ISODATA threshold is the assumed "
+               "contract of uts; L-method(adjusted) termination and the refinement values are bounded only.")
+LEVEL_TEXT = ("Proof of interior optimality for curvature, DFDT, Menger and the L-method single pass, and of termination of DFDT and of the L-method "
+              "refinement (none, original); bounded layer for L-method(adjusted) and for the composition of refinement steps.")
+LEVEL_NOTE = "mode U over the dependency outputs (uts.gradient, uts.thresholding.isodata, lmethod.compute_error uninterpreted); A-NAN; np.argmax/argmin contracts assumed."
+TECHNIQUE = "contract-based deductive verification (AST->VC, z3); bounded run-time layer as labelled stand-in"
